@@ -44,6 +44,11 @@ type Case struct {
 	FlipPos  int    `json:"flip_pos,omitempty"`
 	// FailCommit > 0: the FailCommit-th database commit of the import fails.
 	FailCommit int `json:"fail_commit,omitempty"`
+	// FileFail "b"/"f": the FileFailNth write to that store's flat file
+	// during the import fails after FileFailCut bytes.
+	FileFail    string `json:"file_fail,omitempty"`
+	FileFailNth int    `json:"file_fail_nth,omitempty"`
+	FileFailCut int    `json:"file_fail_cut,omitempty"`
 }
 
 func genCase(t *rapid.T) Case {
@@ -100,6 +105,10 @@ func genCase(t *rapid.T) Case {
 		c.FlipPos = rapid.IntRange(0, 1<<20).Draw(t, "flippos")
 	case 5, 6:
 		c.FailCommit = rapid.IntRange(1, 8).Draw(t, "failcommit")
+	case 7:
+		c.FileFail = kit.Pick(t, "filefail", []string{"b", "f"})
+		c.FileFailNth = rapid.IntRange(1, 4).Draw(t, "filefailnth")
+		c.FileFailCut = kit.Pick(t, "filefailcut", []int{0, 1, 17, 32, 40, 79, 80, 81, 200, 1 << 20})
 	}
 	return c
 }
@@ -261,8 +270,35 @@ func runCase(t *testing.T, c Case) (v kit.Verdict) {
 	if c.FailCommit > 0 {
 		env.DB.FailAt = env.DB.Commits + int64(c.FailCommit)
 	}
+	fileFaultFired := func() bool { return false }
+	if c.FileFail != "" {
+		var st any = env.BS
+		if c.FileFail == "f" {
+			st = env.FS
+		}
+		f, err := hdrstore.ArmFileFault(st, c.FileFailNth, c.FileFailCut)
+		if err != nil {
+			v.Harness = "file fault: " + err.Error()
+			return
+		}
+		fileFaultFired = f
+		defer hdrstore.DisarmFileFault(st)
+	}
 	ierr := doImport(bf, ff, c.Batch)
 	env.DB.FailAt = 0
+	if c.FileFail != "" {
+		fired := fileFaultFired()
+		hdrstore.DisarmFileFault(env.BS)
+		hdrstore.DisarmFileFault(env.FS)
+		fileFaultFired = func() bool { return fired }
+		if fired {
+			v.Class("fault:file-write")
+			if ierr == nil {
+				v.Fail("C14/file-fault-swallowed", "a write to the %s flat file failed during the import, yet the import reports success", c.FileFail)
+				return
+			}
+		}
+	}
 
 	clean := !c.WrongMagic && !c.SwapTypes && !mutated && !flipped && fstart == start && fend == end
 	v.Class("start:%s", map[bool]string{true: "0", false: map[bool]string{true: "1", false: ">1"}[start == 1]}[start == 0])
@@ -289,7 +325,7 @@ func runCase(t *testing.T, c Case) (v kit.Verdict) {
 		v.Class("fault:commit")
 	}
 	span := end - max(preB, preF)
-	v.Nontrivial = start > 0 || preB != preF || (span > 0 && span%c.Batch != 0) || c.FailCommit > 0
+	v.Nontrivial = start > 0 || preB != preF || (span > 0 && span%c.Batch != 0) || c.FailCommit > 0 || fileFaultFired()
 	v.Logf("pre=(%d,%d branch=%v) file=[%d..%d] ffile=[%d..%d] batch=%d defects: magic=%v swap=%v mut=%s@%d flip=%s fail=%d -> err=%v",
 		preB, preF, c.PreBranch, start, end, fstart, fend, c.Batch, c.WrongMagic, c.SwapTypes, c.Mut, c.MutK, c.FlipFile, c.FailCommit, ierr)
 
@@ -374,7 +410,7 @@ func runCase(t *testing.T, c Case) (v kit.Verdict) {
 		return
 	}
 	v.Class("result:failure")
-	if clean && c.FailCommit == 0 && start <= min(preB, preF)+1 && !c.PreBranch {
+	if clean && c.FailCommit == 0 && !fileFaultFired() && start <= min(preB, preF)+1 && !c.PreBranch {
 		// a correct, connecting file was refused
 		v.Class("clean-file-refused")
 	}
